@@ -35,6 +35,7 @@ inline bool inkind_needs_shim(int k) { return k >= IN_FLASH; }
 struct ReadStats {
   size_t delivered = 0;        // bytes handed to the library (counting kinds only)
   size_t reads_after_end = 0;  // read()/readBytes() calls after the source reported its end
+  size_t empty_reads = 0;      // Arduino Stream: non-blocking read() calls that found the receive buffer momentarily empty
   bool counted = false;
   const void* lowest_sp = nullptr;  // lowest stack address seen inside read() (C15)
 };
@@ -77,12 +78,22 @@ struct ChunkBuf : std::streambuf {
 };
 
 #ifdef VF_ARDUINO_SHIM
+// Arduino semantics: bytes arrive in bursts. read() does not wait: it returns -1 whenever the receive buffer is momentarily
+// empty (the next burst arrives "later"); readBytes() waits (up to its timeout) and only comes back short at the real end.
 struct ShimStream : public ::Stream {
   const char* p; const char* end; ReadStats* st; bool ended = false;
-  int read() override { if (ended) st->reads_after_end++; if (p < end) { st->delivered++; return (unsigned char)*p++; } ended = true; return -1; }
+  size_t avail = 1; unsigned phase = 0;
+  void next_burst() { static const size_t bursts[] = {1, 3, 2, 7, 1, 64, 5, 16}; avail = bursts[phase++ % 8]; }
+  int read() override {
+    if (ended) st->reads_after_end++;
+    if (p >= end) { ended = true; return -1; }
+    if (avail == 0) { next_burst(); st->empty_reads++; return -1; }   // nothing buffered right now
+    avail--; st->delivered++; return (unsigned char)*p++;
+  }
   size_t readBytes(char* buf, size_t n) override {
     if (ended) st->reads_after_end++;
-    size_t k = 0; while (k < n && p < end) buf[k++] = *p++;
+    size_t k = 0;
+    while (k < n && p < end) { if (avail == 0) next_burst(); avail--; buf[k++] = *p++; }
     st->delivered += k; if (k < n) ended = true; return k;
   }
 };
